@@ -145,6 +145,10 @@ def protocol_scenarios():
     S.append(scn("map-empty", SM("M", M=Mp(SM("A", A=T("f", End=True)), End=True)), inputs=([],), workers=["f"]))
     S.append(scn("nested", SM("P", P=Par([SM("M", M=Mp(SM("A", A=T("f", End=True)), End=True)), SM("B", B=P(End=True))], End=True)),
                  inputs=([1, 2],)))
+    # an empty Map as the last state of a branch / of an iteration (its own event is the only one there is to hold)
+    S.append(scn("nested-empty-map", SM("P", P=Par([SM("M", M=Mp(SM("A", A=T("f", End=True)), End=True)), SM("B", B=T("g", End=True))], End=True)),
+                 inputs=([],)))
+    S.append(scn("map-of-empty-maps", SM("M", M=Mp(SM("N", N=Mp(SM("A", A=P(End=True)), End=True)), End=True)), inputs=([[], [1], []],)))
     S.append(scn("par-2step", SM("P", P=Par([chain(("A1", P()), ("A2", T("f"))), chain(("B1", T("g")), ("B2", P()))], Next="Z"), Z=P(End=True))))
     S.append(scn("express-chain", chain(("A", T("f")), ("B", P())), typ="EXPRESS"))
     S.append(scn("express-par", SM("P", P=Par([SM("A", A=T("f", End=True)), SM("B", B=P(End=True))], End=True)), typ="EXPRESS"))
